@@ -573,7 +573,7 @@ func TestC10(t *testing.T) {
 				return
 			}
 			if rapid.IntRange(0, 9).Draw(rt, "kind") < 6 {
-				o := lexgen.Opts{MaxModes: 2, ModeActs: true, Frags: true, Macros: true, ShuffleAct: true, MaxRules: 7, BigPct: 4}
+				o := lexgen.Opts{MaxModes: 2, ModeActs: true, Frags: true, Macros: true, ShuffleAct: true, MaxRules: 7, BigPct: 4, RepeatPop: true}
 				cases = append(cases, &Case{Kind: "lexer", S: lexgen.GenSpec(rt, o)})
 				return
 			}
